@@ -11,8 +11,10 @@
    - instances are keyed by the PRINTED instance name  name ++ print(type_args)  (e.g. "List[i64]"),
      xtors of instances by  xtor ++ print(type_args); the type of a constructor is recovered by
      scanning the instances and  name.replace(print(type_args), "");
-   - types are only instantiated lazily (Ty::check) - an expected type that was never passed to
-     Ty::check has no instance, so a constructor / `new` at that type is `Undefined`;
+   - types are only instantiated lazily (Ty::check); since fix d524b1f Constructor::check and
+     New::check first call expected.check(symbol_table), so the instance of the expected type exists
+     before its xtors are looked up (flag [eager] = true; [eager] = false is the code before that
+     fix, kept for the regression statements);
    - case/new clauses are re-ordered into declaration order using Vec::swap_remove;
    - NameContext::no_dups reports TypeParameterBoundMultipleTimes.
    Errors are the variants of typing::errors::Error without their payload. No proofs here. *)
@@ -375,9 +377,9 @@ Fixpoint check_clauses (is_case : bool) (sfx : string) (expected : fty) (xtors :
       end
   end.
 
-(* [eager] = false: the code as it is.  [eager] = true: the one-line repair of the instance-order
-   defect - Constructor::check and New::check first call expected.check(symbol_table), so the
-   instance of the expected type exists before its xtors are looked up. *)
+(* [eager] = true: the code as it is (since fix d524b1f): Constructor::check and New::check first
+   call expected.check(symbol_table) (for i64 this is a no-op, so doing it before the i64 test is
+   the same).  [eager] = false: the code before the fix (instance-order defect). *)
 Fixpoint check_term_gen (eager : bool) (t : fterm) : checker :=
   let check_term := check_term_gen eager in
   fun st ctx expected =>
@@ -575,7 +577,7 @@ Fixpoint codata_check (st : symtab) (params : fnamectx) (ds : list fdtorsig) : c
       doc _ <- ty_check_template st params (fdtcont d);
       codata_check st params r
   end.
-Definition check_term : fterm -> checker := check_term_gen false.
+Definition check_term : fterm -> checker := check_term_gen true.
 
 Definition def_check_gen (eager : bool) (d : fdef) (st : symtab) : cres (fdef * symtab) :=
   doc _ <- ctx_no_dups (fdctx d);
@@ -583,7 +585,7 @@ Definition def_check_gen (eager : bool) (d : fdef) (st : symtab) : cres (fdef * 
   doc st2 <- ty_check (fdret d) st1;
   doc (body', st3) <- check_term_gen eager (fdbody d) st2 (fdctx d) (fdret d);
   COk (mkfdef (fdname d) (fdctx d) (fdret d) body', st3).
-Definition def_check := def_check_gen false.
+Definition def_check := def_check_gen true.
 
 (* ---------- program.rs: check_with_table ---------- *)
 Fixpoint check_type_decls (ds : list fdecl) (st : symtab) : cres unit :=
@@ -607,7 +609,7 @@ Fixpoint check_defs_gen (eager : bool) (ds : list fdef) (st : symtab) : cres (li
       doc (r', st2) <- check_defs_gen eager r st1;
       COk (d' :: r', st2)
   end.
-Definition check_defs := check_defs_gen false.
+Definition check_defs := check_defs_gen true.
 
 (* collection of the instances *)
 Fixpoint collect_ctors (st : symtab) (sfx : string) (xtors : list fname) : cres (list fctorsig) :=
@@ -662,12 +664,12 @@ Definition check_with_table_gen (eager : bool) (p : fprog) (st : symtab) : cres 
   doc (das, cos) <- collect_types st1 (st_types st1);
   COk (mkfcprog (sort_by_name fdaname das) (sort_by_name fcoaname cos) defs).
 
-Definition check_with_table := check_with_table_gen false.
+Definition check_with_table := check_with_table_gen true.
 
 (* Program::check *)
 Definition check_gen (eager : bool) (p : fprog) : cres fcprog :=
   doc st <- build_symbol_table p;
   check_with_table_gen eager p st.
-Definition check : fprog -> cres fcprog := check_gen false.
-(* the checker after the one-line repair of the instance-order defect *)
-Definition check_repaired : fprog -> cres fcprog := check_gen true.
+Definition check : fprog -> cres fcprog := check_gen true.
+(* the checker before fix d524b1f (instance-order defect), for the regression statements *)
+Definition check_before_fix : fprog -> cres fcprog := check_gen false.
